@@ -35,6 +35,9 @@ pub enum Ordering { Relaxed, Release, Acquire, AcqRel, SeqCst }
 
 // ------------------------------------------------------------------ std::any::TypeId stand-in
 #[verifier::external_body] pub struct TypeIdStub { _p: u8 }
+/// the kill signal / the stop message: opaque here
+#[verifier::external_body] pub struct Signal { _p: u8 }
+#[verifier::external_body] pub struct StopMessage { _p: u8 }
 impl View for TypeIdStub { type V = int; uninterp spec fn view(&self) -> int; }
 pub uninterp spec fn spec_type_id_of<T>() -> int;
 #[verifier::external_body]
@@ -565,3 +568,13 @@ pub fn drop<T>(t: T) { unimplemented!() }
     ensures final(log).s == old(log).s.push(Effect::Await),
 )]
 pub fn vx_await(n: Notified) { unimplemented!() }
+
+#[verus_verify]
+impl ActorProperties {
+    /// hands the signal to the single-shot signal port (Err when the port is already spent); no effect the log speaks about
+    #[verus_verify(external_body)]
+    pub fn send_signal(&self, signal: Signal) -> Result<(), MessagingErr<()>> { unimplemented!() }
+    /// hands the stop message to the single-shot stop port
+    #[verus_verify(external_body)]
+    pub fn send_stop(&self, reason: Option<String>) -> Result<(), MessagingErr<StopMessage>> { unimplemented!() }
+}
